@@ -1147,6 +1147,21 @@ func enumPathsX(fn *ssa.Function, target func(*ssa.Return) bool, limit int) (pat
 					}
 					if nx, ny := sub(bo.X), sub(bo.Y); nx != bo.X || ny != bo.Y {
 						cond = &ssa.BinOp{Op: bo.Op, X: nx, Y: ny}
+						// two constants: the outcome is known
+						if cx, okx := nx.(*ssa.Const); okx {
+							if cy, oky := ny.(*ssa.Const); oky && (bo.Op == token.EQL || bo.Op == token.NEQ) {
+								var eq, known bool
+								switch {
+								case cx.Value == nil && cy.Value == nil:
+									eq, known = true, true
+								case cx.Value != nil && cy.Value != nil && cx.Value.Kind() == cy.Value.Kind():
+									eq, known = constant.Compare(cx.Value, token.EQL, cy.Value), true
+								}
+								if known && (eq == (bo.Op == token.EQL)) != taken {
+									continue
+								}
+							}
+						}
 					}
 				}
 				if _, isConst := cond.(*ssa.Const); !isConst {
@@ -1570,6 +1585,14 @@ func resolve(v ssa.Value) ssa.Value {
 				return v
 			case *ssa.FreeVar:
 				b := freeVarBinding(a)
+				// (captured again by a function literal nested in the capturing one)
+				for d := 0; d < 4; d++ {
+					fv2, again := b.(*ssa.FreeVar)
+					if !again {
+						break
+					}
+					b = freeVarBinding(fv2)
+				}
 				if b == nil {
 					return v
 				}
